@@ -314,8 +314,9 @@ Definition round_half_even (x : Q) : Z :=
   | Eq => if Z.even lo then lo else lo + 1
   end.
 
-(* nearest binary64 (normal range), ties to even *)
-Definition rn53 (q : Q) : Q :=
+(* nearest binary64 (normal range), ties to even; `rn53` first reduces the fraction so that equal rationals
+   (==) give identical results *)
+Definition rn53_raw (q : Q) : Q :=
   match Qcompare q 0 with
   | Eq => 0%Q
   | c =>
@@ -325,6 +326,8 @@ Definition rn53 (q : Q) : Q :=
       let r := Qred (Qz m * pow2Q e)%Q in
       match c with Lt => Qred (- r)%Q | _ => r end
   end.
+
+Definition rn53 (q : Q) : Q := rn53_raw (Qred q).
 
 Record quirks : Set := Quirks { q_rounded_sum : bool }.
 Definition all_off : quirks := Quirks false.
